@@ -26,7 +26,8 @@ ASSUMPTIONS = [
     "any exception type counts as refusal",
 ]
 ALPHABET = "gate x fault value"
-BOUND = {"quick": "single-bit flips, 0..255, edit distance 1", "thorough": "adds all 2-bit flips of every magic / GUID"}
+BOUND = {"quick": "single-bit flips, 0..255, edit distance 1",
+         "thorough": "adds all 2-bit flips of every magic up to 8 bytes, all 3-bit flips of 4-byte magics, every value of every single byte"}
 EXPECT_OUTCOMES = ["refused", "accepted-in-set"]
 
 
@@ -408,6 +409,15 @@ def _bitflips(width, two=False):
     if two:
         for i, j in itertools.combinations(range(n), 2):
             yield (i, j)
+        if width <= 4:
+            for t in itertools.combinations(range(n), 3):
+                yield t
+        # every other value of every single byte
+        for b in range(width):
+            for x in range(1, 256):
+                bits = tuple(b * 8 + k for k in range(8) if x >> k & 1)
+                if len(bits) > (3 if width <= 4 else 2):
+                    yield bits
 
 
 def _edits(s):
